@@ -12,9 +12,9 @@ TEXT = {
          'E2 bounded by the number of symbolic payload bytes; E1 lemma inductive under INV (DESIGN 8.1).'),
  'C02': ('Kani one-step lemmas from an arbitrary decoder state (unbounded frame length under INV): a payload is delivered only if CRC, alignment, pad count and pad zeros all check out and it is exactly buffer||withheld zeros-pad; the running checksum covers every consumed byte; the decoded payload grows by exactly the transmitted bytes. llsym: on symbolic streams every delivered payload is preceded by exactly spec_encode(payload).',
          'INV over-approximates reachable decoder states; E2 bounded by symbolic stream bytes.'),
- 'C03': ('llsym: generated well-formed files with symbolic content bytes (checksums recomputed by the bit-wise reference CRC) parse in both parsers to exactly what the independent reference reader extracts.', 'bounded by skeleton library and number of symbolic content bytes'),
+ 'C03': ('llsym: 27 generated well-formed files with symbolic content bytes (checksums recomputed by the bit-wise reference CRC) parse in both parsers to exactly what (a) the independent reference reader extracts and (b) the generator\'s own expected-content trace says; plus encodings the generator does not emit (short checksum form, 4-byte choice tags).', 'bounded by skeleton library and number of symbolic content bytes'),
  'C04': ('llsym: both parsers vs an independent reference SML reader on fully symbolic inputs and on corruptions of valid files with and without recomputed checksums: same accept/reject, same content.', 'bounded by input length / one symbolic structural byte per run'),
- 'C05': ('Kani: ONE push_byte/finalize/reset from an arbitrary decoder state satisfying INV, for three buffer capacities: no panic, no overflow, all loops within their unwinding bound, INV re-established (induction => any stream length, any call order). Encoder: lock-step simulation lemma shows the assert/unreachable arms are dead. llsym: all transport entry points on symbolic streams, any panic/abort/hang is a violation.', 'INV (DESIGN 8.1); fewer than 2^62 bytes between two boundaries'),
+ 'C05': ('Kani: ONE push_byte/finalize/reset from an arbitrary decoder state satisfying INV, for three buffer capacities: no panic, no overflow, all loops within their unwinding bound, INV re-established (induction => any stream length, any call order). Encoder: lock-step simulation lemma shows the assert/unreachable arms are dead. llsym: all transport entry points on symbolic streams, any panic/abort/hang is a violation; ArrayBuf<65600> across the 2^16 boundary; call depth must not grow with the stream length (confirmed natively on a 3 MB stream).', 'INV (DESIGN 8.1); fewer than 2^62 bytes between two boundaries'),
  'C06': ('llsym: every path of both parsers on symbolic inputs and on valid files whose type-length fields are replaced by symbolic ones: panics, aborts, step-budget exhaustion and heap requests beyond a constant multiple of the input length are violations; the streaming parser must not allocate.', 'bounded by input length / symbolic TLF bytes'),
  'C07': ('Kani lock-step simulation: from ANY pair of (real iterator-encoder state, reference Transport-v1 encoder state) in the simulation relation, one next() emits the same byte and stays in the relation => identical output for payloads of every length; buffer encoder on all payloads <= 4/5 bytes into several capacities. llsym: both encoders vs the reference encoder and 21 capacities.', 'simulation relation in kani/src/encstep.rs; E2 bounded by payload length'),
  'C08': ('Kani: the start-sequence matcher equals the longest-prefix matcher (by definition, not a table) from ANY search state => noise of any length, ending in any partial start sequence. llsym: symbolic noise + frame, cut-off frame + frame, from five decoder histories.', 'INV for the search state; E2 bounded by noise length'),
@@ -27,7 +27,7 @@ TEXT = {
  'C15': ('Kani: DecoderReader::read on one byte == Decoder::push_byte from any decoder state. llsym: the same symbolic stream through 8 front-ends, traces equal modulo the documented tail.', 'INV; E2 bounded by stream length'),
  'C16': ('llsym: ArrayBuf<L> delivers every payload of L symbolic bytes, ArrayBuf<L-1> reports exactly one OutOfMemory and delivers the following frame, L = 0..8; default 8 KiB buffer at 8192/8193.', 'bounded by L'),
  'C17': ('Kani conservation law per step from any INV state: DiscardedBytes(n) == bytes between last boundary and start sequence, rejected frames end at a boundary, every other byte increments the in-flight count by one; finalize/reset/IO errors report exactly that count. llsym: tiling of symbolic streams.', 'INV ties the noise counter to raw_msg_len'),
- 'C18': ('Kani: ONE push / extend_from_slice / truncate / clear from an arbitrary raw ArrayBuf<N> state (arbitrary stale bytes) vs an ideal bounded vector, N in {0,1,2,5,8}; equality and from_iter depend only on visible contents; Vec-backed Buffer.', 'Debug output not solver-checked'),
+ 'C18': ('Kani: ONE push / extend_from_slice / truncate / clear from an arbitrary raw ArrayBuf<N> state (arbitrary stale bytes) vs an ideal bounded vector, N in {0,1,2,5,8}; equality and from_iter depend only on visible contents; Vec-backed Buffer. llsym: ArrayBuf<65600> filled across the 2^16 boundary.', 'Debug output not solver-checked'),
 }
 TECH = {
  'C01': 'symbolic execution of rustc LLVM IR (llsym+z3) + Kani/CBMC one-step lemma',
@@ -41,13 +41,13 @@ TECH = {
  'C09': 'llsym (z3) lock-step comparison of the two parsers',
  'C10': 'llsym (z3) end-to-end comparison with hand composition',
  'C11': 'Kani/CBMC one-step fault lemmas from arbitrary decoder state + llsym symbolic fault scripts over io::Read',
- 'C12': 'Kani/CBMC differential unit harnesses',
+ 'C12': 'Kani/CBMC differential unit harnesses + llsym long/symbolic TLFs at the public API',
  'C13': 'llsym (z3) path exploration',
  'C14': 'Kani/CBMC boundary-state lemmas + llsym concatenation',
  'C15': 'Kani/CBMC read()==push_byte lemma + llsym front-end agreement',
  'C16': 'llsym (z3) symbolic payloads at exact/under capacity',
  'C17': 'Kani/CBMC per-step conservation law + llsym tiling',
- 'C18': 'Kani/CBMC one-step vs ideal vector',
+ 'C18': 'Kani/CBMC one-step vs ideal vector + llsym large-capacity run',
 }
 
 def main():
